@@ -274,6 +274,8 @@ def inject(root, units, selected_units, selected_fns):
     for (file, frm, to) in u.swaps:
       f = file or u.file
       lines = get(f)
+      if any(l.strip() == to.strip() for l in lines) and not any(l.strip() == frm for l in lines):
+        continue  # the same swap was already applied by another unit of this run
       k = _find_unique(lines, frm, f)
       lines[k] = to
       diffs.append("%s: line `%s` -> `%s`" % (f, frm, to))
